@@ -20,8 +20,9 @@ template<> struct Item<float> { static float make(i64 v) { return static_cast<fl
 template<> struct Item<double> { static double make(i64 v) { return static_cast<double>(v); } static std::string str(double v) { return sim::hexd(v); } typedef datasketches::serde<double> serde; typedef std::less<double> less; };
 template<> struct Item<int64_t> { static int64_t make(i64 v) { return v; } static std::string str(int64_t v) { return std::to_string(v); } typedef datasketches::serde<int64_t> serde; typedef std::less<int64_t> less; };
 template<> struct Item<std::string> {
-  static std::string make(i64 v) { std::string s = "s" + std::to_string(v); if (v % 7 == 3) s += std::string(static_cast<size_t>(v % 40), 'x'); return s; }
-  static std::string str(const std::string& v) { return v; }
+  // some items carry bytes that are not text (0xFF is what a careless reader takes for end-of-file, 0x80.. sign-extend, 0x00 ends a C string)
+  static std::string make(i64 v) { std::string s = "s" + std::to_string(v); if (v % 7 == 3) s += std::string(static_cast<size_t>(v % 40), 'x'); if (v % 11 == 5) { s += "\xff\xfe\x80"; s.push_back('\0'); s += "z"; } return s; }
+  static std::string str(const std::string& v) { std::string o; for (unsigned char c : v) { if (c >= 0x20 && c < 0x7f && c != '\\') o += static_cast<char>(c); else { char b[8]; snprintf(b, sizeof(b), "\\x%02x", c); o += b; } } return o; }   // observations stay printable
   typedef datasketches::serde<std::string> serde; typedef std::less<std::string> less;
 };
 template<> struct Item<sim::titem> { static sim::titem make(i64 v) { return sim::titem(v); } static std::string str(const sim::titem& v) { return "t" + std::to_string(v.value()); } typedef sim::titem_serde serde; typedef sim::titem_less less; };
